@@ -142,6 +142,9 @@ type Stats struct {
 	Detached         int64
 	Recycled         int64 // handles issued with generation > 0
 	MaxOpenQ         int64
+	MaxAlive         int64 // largest number of alive entities seen at a Stats() rule evaluation or case end
+	MaxTables        int64 // largest number of tables (free ones included)
+	MaxTableSize     int64 // largest table
 	LockChecks       int64
 	Masks            map[CSet]bool
 	FilterSpecs      map[string]bool
